@@ -22,7 +22,13 @@ type engine struct{}
 // test (one run at a time per process).
 var recSink func(rec []int)
 
-func init() { harness.Register(engine{}) }
+func init() {
+	harness.Register(engine{})
+	// KeepInMemory's statistics logging forces two full garbage collections
+	// per corpus load (memstats -> runtime.GC); perkeep's own tests switch it
+	// off the same way.
+	index.SetVerboseCorpusLogging(false)
+}
 
 func (engine) Name() string    { return "indexsim" }
 func (engine) Props() []string { return []string{"C05", "C06", "C07"} }
@@ -36,6 +42,10 @@ type Config struct {
 	Corpus string `json:"corpus,omitempty"`
 	// ReindexProcs is index.SetReindexMaxProcs for the full-reindex oracle.
 	ReindexProcs int `json:"reindexProcs,omitempty"`
+	// OracleSeed, when set, seeds the oracle histories (canonical, reindex)
+	// instead of the plan's SchedSeed: a replay plan cut out of a permutation
+	// run keeps the oracle schedules of the run it came from.
+	OracleSeed uint64 `json:"oracleSeed,omitempty"`
 	// Perm: execute every permutation of Ops as an independent sub-run.
 	Perm bool `json:"perm,omitempty"`
 	// Times: extra query instants (ms after base) for C06/C07 (claim dates
@@ -132,6 +142,8 @@ type session struct {
 	kvSt  *sim.KVState
 	srcW  *sim.SimStore
 	idx   *index.Index
+	// corpus of the current index object (nil without KeepInMemory)
+	corpus *index.Corpus
 
 	corpusOn bool
 
@@ -187,6 +199,7 @@ func (s *session) open() error {
 		}
 		idx.InitBlobSource(s.srcW)
 		s.idx = idx
+		s.corpus = nil
 		if s.corpusOn {
 			oerr = s.keepInMemoryLocked()
 		}
@@ -200,9 +213,11 @@ func (s *session) open() error {
 func (s *session) keepInMemoryLocked() error {
 	s.idx.Lock()
 	defer s.idx.Unlock()
-	if _, err := s.idx.KeepInMemory(); err != nil {
+	c, err := s.idx.KeepInMemory()
+	if err != nil {
 		return fmt.Errorf("KeepInMemory: %w", err)
 	}
+	s.corpus = c
 	return nil
 }
 
